@@ -578,6 +578,56 @@ func r09c(c *core.Ctx) {
 					}
 				}
 			}
+			// `size := 512; if h := optOf(m); h != nil && int(h.Class) > 512 { size = int(h.Class) }`: the non-512 edge
+			// is taken only where the class exceeds 512, and the header it is read from is (through the scan's phis)
+			// the Hdr() of an OPT record of the query's additionals
+			if p, isPhi := sz.(*ssa.Phi); isPhi && !(ok && fromQuery) {
+				has512, okOther, nOther := false, true, 0
+				for i, e := range p.Edges {
+					if k, isC := core.ConstInt(e); isC && k == 512 {
+						has512 = true
+						continue
+					}
+					nOther++
+					pred := p.Block().Preds[i]
+					if !(hasCond(pred, " > 512)", true) || hasCond(pred, " < 512)", false) && hasCond(pred, " == 512)", false)) {
+						okOther = false
+					}
+					for _, o := range core.Origins(e, core.OriginOpts{}) {
+						u, isU := o.(*ssa.UnOp)
+						if !isU || !core.IsFieldAddr(u.X, "ResourceHdr", "Class") {
+							okOther = false
+							continue
+						}
+						fa := u.X.(*ssa.FieldAddr)
+						seen := map[*ssa.Phi]bool{}
+						var walk func(v ssa.Value, blk *ssa.BasicBlock)
+						walk = func(v ssa.Value, blk *ssa.BasicBlock) {
+							if ph, isPhi := v.(*ssa.Phi); isPhi {
+								if seen[ph] {
+									return
+								}
+								seen[ph] = true
+								for j, e2 := range ph.Edges {
+									walk(e2, ph.Block().Preds[j])
+								}
+								return
+							}
+							if core.IsNilConst(v) {
+								return // excluded by the `!= nil` test that guards the read (a nil read would crash: R01e/R01a's business)
+							}
+							hc, isCall := v.(*ssa.Call)
+							if !isCall || !hc.Call.IsInvoke() || hc.Call.Method.Name() != "Hdr" || !strings.Contains(core.Expr(hc), qName+".Additionals[") || !hasCond(blk, ".Type == 41)", true) {
+								okOther = false
+							}
+						}
+						walk(fa.X, u.Block())
+					}
+				}
+				if has512 && nOther > 0 && okOther {
+					ok, fromQuery = true, true
+				}
+			}
 			c.Check(ok && fromQuery, "udp-limit-from-query-opt", call.Pos(), uh, "the UDP size limit is max(512, class of the OPT record of the QUERY m)", desc)
 			tcp, _ := core.ConstBool(a[3])
 			c.Check(!tcp, "udp-not-framed", call.Pos(), uh, "UDP responses are packed without the TCP length prefix", "")
